@@ -163,7 +163,8 @@ def source_fn(desc, ieq, dim=1):
         cache = {}
 
         def T(x, q, c0=c0, cx=cx, cache=cache):
-            if "t" not in cache:
+            if "t" not in cache or not np.array_equal(cache["x"], x):        # one table per set of positions
+                cache["x"] = np.array(x, dtype=float, copy=True)
                 cache["t"] = c0 + cx * np.asarray(x, dtype=float)
                 cache["keep"] = cache["t"].copy()
             return cache["t"]
